@@ -72,6 +72,36 @@ theorem prefix_witnesses_misparsed (H : Str → Str) :
     simp [Denom.hasPrefix, Denom.ibcDenom, Denom.isNative]
   · decide
 
+/-- **The voucher can be sent back.**  `MsgTransfer` of a held voucher `Y` over the v1 channel `m.chan` it
+    came over (`Y`'s first hop) succeeds — it is not refused for any denomination reason — whenever the
+    general send conditions hold (sending enabled, sender decodable and not blocked, positive covered
+    amount, non-blank sender / receiver, core IBC commits the packet); it burns exactly that amount and
+    emits a packet carrying `Y`'s path to the counterparty end. -/
+theorem voucher_send_back_accepted (cfg : Config) (c : Nat) (ch : Chain) (m : MsgTransfer) (seq : Nat) (Y : Denom)
+    (s : Addr) (dc : Nat) (did : Str)
+    (hse : ch.sendEnabled = true) (hs : cfg.decode m.sender = some s) (hbl : isBlockedAddr cfg c s = false)
+    (hamt : m.amount ≠ unbounded) (hpos : m.amount ≠ 0)
+    (htok : tokenFromCoin cfg ch m.denom = .ok Y) (hY : GoodDenom Y) (hYv : Y.validate = none)
+    (hpre : Y.hasPrefix transferPort m.chan = true)
+    (hnb1 : goBlank m.sender = false) (hnb2 : goBlank m.receiver = false)
+    (hv1 : cfg.hasChannel c m.port m.chan = true) (hal : m.alias = false)
+    (hpeer : cfg.peer c m.chan = some (dc, did))
+    (hf : m.amount ≤ ch.bank.bal s (Y.ibcDenom cfg.hashHex)) (hsup : m.amount ≤ ch.bank.supply (Y.ibcDenom cfg.hashHex))
+    (hsdk : sdkValidDenom (Y.ibcDenom cfg.hashHex) = true) :
+    ∃ ch' p, transfer cfg c ch m none seq = .ok (ch', p) ∧ p.data.denom = Y.path ∧ p.data.amount = m.amount ∧
+      p.dstChain = dc ∧ p.dstChan = did ∧
+      ch'.bank.supply (Y.ibcDenom cfg.hashHex) + m.amount = ch.bank.supply (Y.ibcDenom cfg.hashHex) :=
+  transfer_voucher_home_succeeds hse hs hbl hamt hpos htok hY hYv hpre hnb1 hnb2 hv1 hal hpeer hf hsup hsdk
+
+/-- … and `TokenFromCoin` does resolve the voucher's coin denomination to the stored voucher: the store
+    is keyed by the hash of the full path (C34) and the hash is printed as 64 upper-case hex digits. -/
+theorem stored_voucher_is_found (cfg : Config) (ch : Chain) (Y : Denom)
+    (hk : (ch.denoms.map fun x => cfg.hashHex x.path).Nodup) (hmem : Y ∈ ch.denoms)
+    (hfmt : validHexHash (cfg.hashHex Y.path) = true)
+    (hup : (cfg.hashHex Y.path).map Char.toUpper = cfg.hashHex Y.path) :
+    tokenFromCoin cfg ch ("ibc/".toList ++ cfg.hashHex Y.path) = .ok Y :=
+  tokenFromCoin_of_stored hk hmem hfmt hup
+
 /-- **On arrival the origin releases the original token from that channel's escrow.**
     In any world reached by a lifecycle-respecting history (`Inv`, `EscInv`): let `q` be a packet that
     chain `B` sent over `cB` carrying the voucher `transfer/cB/X` of a token `X` for which `A` is the source
